@@ -13,7 +13,7 @@ variables of the packages this property's code lives in, the functions (other th
 assign to them or call methods on them, and the fields of the property's struct types. The model is
 a pure function of the arguments and of these fields; a new variable, writer or field is state the
 model does not know of. -/
-def stateC15 : List (String × String) := [("globals:fit", ""), ("globalwrites:fit", ""), ("fields:fit.PolynomialRegressionResult", "Coefficients:[]float64 F:func(xfloat64)float64"), ("fields:fit.pairSlice", "xs:[]float64 ys:[]float64")]
+def stateC15 : List (String × String) := [("globals:fit", ""), ("globalwrites:fit", ""), ("fields:fit.PolynomialRegressionResult", "Coefficients:[]float64 F:func(xfloat64)float64"), ("fields:fit.pairSlice", "xs:[]float64 ys:[]float64"), ("funcs:fit", "n=7 fnv64a=2b973b271185ef06")]
 
 /-- the source has exactly the package-level variables, writers and struct fields the model accounts for -/
 theorem state_C15 : holdsAll stateC15 = true := by decide +kernel
